@@ -167,11 +167,11 @@ fn full_cases(r: &mut Rng, n: usize, sink: &mut Sink) {
 /// model is started from the implementation's initial state and consist and must arrive at the same
 /// final train state, brake state, braking-point index and complete consist state after the same
 /// number of steps -- or stop with the same error.
-fn full_walk_cases(r: &mut Rng, n: usize, sink: &mut Sink) {
+pub fn full_walk_cases(r: &mut Rng, n: usize, n_prep: usize, sink: &mut Sink) {
     use crate::c12::sl_opts;
     use crate::train::*;
-    let mut t = 0usize; let mut made = 0usize;
-    while made < n && t < 20 * n + 20 {
+    let mut t = 0usize; let mut made = 0usize; let mut made_prep = 0usize;
+    while (made < n || made_prep < n_prep) && t < 20 * (n + n_prep) + 20 {
         let mut rr = r.fork();
         let mut o = sl_opts(&mut rr, t); o.schedule = 0; o.default_consist = t % 4 != 3; o.max_total = 14000.0;
         o.size = [0, 1, 0, 2][t % 4]; o.clean_start = true; o.profile = [0, 2, 1, 3, 0][t % 5];
@@ -184,6 +184,19 @@ fn full_walk_cases(r: &mut Rng, n: usize, sink: &mut Sink) {
         sim.set_save_interval(None);
         let rp = res_params(&sim.train_res);
         let env = sl_env(&sim, &rp);
+        // what extend_path derived from the network: braking points and speed profile (model: WholeSim.sl_prepare)
+        if let (true, Ok(tp)) = (made_prep < n_prep, builder(&train, None, true).train_config.make_train_params()) {
+            let route_z = format!("[{}]", route.path.iter().map(|l| cz(l.idx() as i64)).collect::<Vec<_>>().join("; "));
+            let (pts, idx) = braking_points(&sim);
+            let mut o = outs_points(&pts, idx); o.extend(crate::trk::outs_speed(&sim.path_tpc));
+            let mut tg = route.tags.clone(); tg.extend(train.tags.clone()); tg.push("from:network+route".into());
+            sink.put(Case { id: format!("sl_prepare/{}", t - 1), kind: "sl_prepare".into(),
+                coq: format!("x_sl_prepare 200000%N {} {} {} {} {} {} {}", crate::trk::coq_net(&route.network), crate::trk::coq_tp(&tp), route_z, coq_rp(&rp), coq_fb(&fb_of(&sim)), coq_tstate(&sim.state), coq_cache(&res_cache(&sim.train_res))),
+                outcome: Outcome::Ok(o), tags: tg, input: json!({"sim": "speed_limit", "route": route_json(&route), "train": train_json(&train), "prepare_only": true}),
+                oracle_fail: vec![], known: vec![], in_domain: true });
+            made_prep += 1;
+        }
+        if made >= n { continue; }
         let fmax = match sim.loco_con.force_max() { Ok(f) => f.value, Err(_) => continue };
         let end = sim.path_tpc.offset_end().value;
         let (pre, pre_cache, pre_fb, pre_idx, pre_con) = (sim.state, res_cache(&sim.train_res), fb_of(&sim), braking_idx(&sim), sim.loco_con.clone());
@@ -240,7 +253,7 @@ pub fn run(seed: u64, n: usize, sink: &mut Sink) {
     let mut r = Rng::new(seed ^ 0xC11);
     let n_full = n * 2 / 5;
     { let mut rf = r.fork(); full_cases(&mut rf, n_full, sink); }
-    { let mut rf = r.fork(); full_walk_cases(&mut rf, (n / 120).max(3), sink); }
+    { let mut rf = r.fork(); full_walk_cases(&mut rf, (n / 120).max(3), 0, sink); }
     let n = n - n_full;
     let mut made = 0usize; let mut t = 0usize;
     while made < n {
